@@ -7,6 +7,7 @@ package main
 //   c04-mut    : every single-field mutation of valid proofs, presented to Swap and Melt (C04)
 
 import (
+	"sort"
 	"fmt"
 	"math/rand"
 	"strings"
@@ -386,11 +387,58 @@ func scMeltQuote() scenario {
 	}}
 }
 
+// requests that only read, poll a mint quote, or restart: cut and faulted like the others (Coq: CutFrames.v)
+func scQuery(which string) scenario {
+	return scenario{name: "query-" + which, family: "query", setup: func(h *Hist) (func(mode), func(), func(string, string)) {
+		h.fundAmount(8)
+		q2 := h.OpMintQuote(mode{}, 5, false, false, true)
+		if q2 != nil {
+			h.EnvSettle(q2)
+		}
+		target := func(m mode) {
+			switch which {
+			case "mintstate":
+				if q2 != nil {
+					h.OpMintState(m, q2, false)
+				}
+			case "watcher":
+				if q2 != nil {
+					h.OpWatcher(m, q2)
+				}
+			case "restore":
+				var bs []*hB
+				for _, b := range h.bs {
+					if len(bs) < 3 {
+						bs = append(bs, b)
+					}
+				}
+				sort.Slice(bs, func(i, j int) bool { return bs[i].h < bs[j].h })
+				h.OpRestore(m, bs, 1)
+			case "balance":
+				h.OpBalance(m)
+			case "info":
+				h.OpInfo(m)
+			}
+		}
+		follow := func() {
+			if q2 != nil {
+				h.OpMintState(mode{}, q2, false)
+				h.OpMint(mode{}, q2, h.freshOutputs(cashu.AmountSplit(5)), 0, false)
+			}
+			ins := h.honestIns(1)
+			h.OpSwap(mode{}, ins, h.honestSwapOutputs(ins))
+			h.OpBalance(mode{})
+		}
+		return target, follow, func(string, string) {}
+	}}
+}
+
 func cutScenarios(tier string) []scenario {
 	l := []scenario{scSwap(0), scSwap(1000), scMint(false), scMint(true),
 		scMelt(0, nil, false), scMelt(2, []int{0}, false), scMelt(1, []int{1}, false), scMelt(3, []int{4}, false),
 		scMelt(3, []int{2, 0}, false), scMelt(1, []int{0}, false), scMelt(0, nil, true),
-		scResolve(0, 0), scResolve(1, 0), scResolve(0, 1), scResolve(1, 1), scRotate(), scQuotes(), scMeltQuote()}
+		scResolve(0, 0), scResolve(1, 0), scResolve(0, 1), scResolve(1, 1), scRotate(), scQuotes(), scMeltQuote(),
+		scQuery("mintstate"), scQuery("watcher"), scQuery("restore"), scQuery("balance"), scQuery("info")}
 	if tier == "thorough" {
 		for _, p := range []int{1, 3} {
 			for _, a := range []int{0, 1, 2, 3, 4} {
